@@ -268,7 +268,7 @@ def run(ctx):
         model_ok = False
         notes.append(f"write-back model could not be evaluated: {str(e)[-400:]}")
     stats = {"compared_functions": 0, "agree": 0, "rejected_by_compiler": 0, "untraceable": 0, "events_compared": 0,
-             "with_subscript": 0, "with_nested_field": 0, "same_typed_borrowed_pairs": 0}
+             "with_subscript": 0, "programs_with_same_typed_borrowed_pair": 0}
     wb_dis = 0
     samples = []
     nontrivial = set()
@@ -311,7 +311,8 @@ def run(ctx):
                                        "evN.outK = output port K of the N-th non-structural node (events, in creation order); inK = K-th function input; "
                                        "a borrowed argument's place must receive the call's output port nret+k",
                             "replay": replay_cmd(c["id"])})
-    stats["same_typed_borrowed_pairs"] = sum(1 for c in cases if "coq" in c)
+    # every generated callee signature starts from two borrowed inputs of one type (gen_sig); both corpus programs have one too
+    stats["programs_with_same_typed_borrowed_pair"] = len(cases)
     # a run in which (almost) nothing was compared must not pass: the tie would be vacuous
     expected_fns = sum(len(c["funcs"]) for c in cases)
     if model_ok and stats["compared_functions"] < 0.8 * expected_fns:
